@@ -35,6 +35,13 @@ def workloads(run, rt, quick):
         "set_index + assign": df.set_index("a").assign(q=1),
         "shuffle tasks": df.shuffle("b", shuffle_method="tasks"),
         "shuffle disk": df.shuffle("b", shuffle_method="disk"),
+        "shuffle disk max_branch=3 (5 partitions)": rt.dx.from_pandas(pdf, npartitions=5).shuffle("b", shuffle_method="disk", max_branch=3),
+        "shuffle disk max_branch=2 (3 partitions)": rt.dx.from_pandas(pdf, npartitions=3).shuffle("b", shuffle_method="disk", max_branch=2),
+        "shuffle disk npartitions=6": df.shuffle("b", shuffle_method="disk", npartitions=6),
+        "shuffle tasks max_branch=2": df.shuffle("b", shuffle_method="tasks", max_branch=2),
+        "set_index disk max_branch=3": rt.dx.from_pandas(pdf, npartitions=4).set_index("b", shuffle_method="disk", max_branch=3),
+        "merge disk": df.merge(df, on="b", shuffle_method="disk", broadcast=False),
+        "groupby split_out=2 disk": df.groupby("b").a.sum(split_out=2, shuffle_method="disk").to_frame(),
         "merge hash": df.merge(df, on="b", shuffle_method="tasks", broadcast=False),
         "merge broadcast": df.merge(small, on="b"),
         "groupby agg": df.groupby("b").agg({"a": "sum", "c": "max"}),
@@ -51,8 +58,8 @@ def workloads(run, rt, quick):
     }
     fps = {"pdf": graphs.fingerprint(pdf)}
     for tag, coll in special.items():
-        yield ("special:" + tag, coll, tag not in ("shuffle tasks", "shuffle disk", "merge hash", "merge broadcast", "groupby agg", "groupby apply", "sort_values", "drop_duplicates"),
-               tag not in ("merge hash", "merge broadcast", "rename + index name", "drop_duplicates"), {"pdf": pdf}, fps)
+        yield ("special:" + tag, coll, not (tag.startswith(("shuffle", "merge", "groupby", "set_index")) or tag in ("sort_values", "drop_duplicates")),
+               not (tag.startswith("merge") or tag in ("rename + index name", "drop_duplicates")), {"pdf": pdf}, fps)
     # sources handed over in every shape from_pandas / from_array / from_dict / repartition accept: the caller's object stays as it was
     import numpy as np
     order = [7, 2, 9, 0, 5, 11, 3, 8, 1, 10, 6, 4]
@@ -117,7 +124,7 @@ def run(run):
         disk = "disk" in tag or "'method': 'disk'" in tag
         ref = None
         rng = random.Random(run.seed + n)
-        policies = ["fifo", "reverse", "lifo"] + ["random"] * K
+        policies = ["fifo", "reverse", "lifo", "demand"] + ["random"] * K
         for pol in policies:
             if disk:
                 # a disk shuffle graph carries fresh partd keys per materialization: re-materialize per run
@@ -153,4 +160,4 @@ def run(run):
                 run.violation("the user's source object %s was modified by computing [%s]" % (t, tag[:300]), {"kind": "source-mutation", "workload": tag})
         if n == 3:
             run.sample({"workload": tag[:200], "keys": info["nkeys"], "policies": policies})
-    run.section("schedules", workloads=n, with_shared_keys=shared_graphs, orders_per_workload=3 + K)
+    run.section("schedules", workloads=n, with_shared_keys=shared_graphs, orders_per_workload=4 + K)
